@@ -241,6 +241,11 @@ func (c CodeQuery) Exec(ctx *Context, loc *Location, qc QueryContext, qr QueryRe
 		if loggable(ctx, DEBUG) {
 			Log(DEBUG, ctx, "CodeQuery.Exec", "got", Gorep(x), "type", fmt.Sprintf("%T", x))
 		}
+		if m, is := x.(Map); is {
+			// What a script gets as a 'Map' (the event, say) it
+			// gives back as one.
+			x = map[string]interface{}(m)
+		}
 		switch vv := x.(type) {
 		case bool:
 			if vv == true {
